@@ -56,28 +56,42 @@ def run_p(report: Report, prop: str, tier: str, targets: Optional[List[str]] = N
     from pyvc.contracts import load_all
 
     reg = load_all()
-    jobs = []
+    # Layer-2 contracts rely on the refinement axioms of node classes: the classes they need are
+    # verified in the same run (even when they are not tagged with this property) and an axiom is
+    # made available only if every obligation of its class was discharged
+    layer2 = [t for t in targets if getattr(reg.contract_for(t), "layer", 1) == 2]
+    support = []
+    for t in layer2:
+        for u in getattr(reg.contract_for(t), "uses_axioms_of", []):
+            if u not in targets and u not in support:
+                support.append(u)
+
+    def run_jobs(ts, env_extra=None):
+        jobs = [(t, tier, budget, (0, 1)) for t in ts]
+        jobs.sort(key=lambda j: -int(getattr(reg.contract_for(j[0]), "shards", 1)))
+        if env_extra:
+            os.environ.update(env_extra)
+        out = {}
+        if not jobs:
+            return out
+        with ProcessPoolExecutor(max_workers=min(workers, len(jobs))) as pool:
+            futs = {pool.submit(_verify_one, j): j for j in jobs}
+            for fut in as_completed(futs):
+                t = futs[fut][0]
+                try:
+                    out[t] = fut.result()
+                except Exception as e:  # worker crash
+                    out[t] = {"target": t, "status": "tool-error", "error": f"worker crash: {e!r}", "verdicts": [], "props": [], "path": "", "lineno": 0, "sha256": "", "solver_ms": 0, "wall_ms": 0, "paths": 0, "assumed_calls": [], "callees": []}
+        return out
+
+    phase1 = [t for t in targets if t not in layer2] + support
+    res1 = run_jobs(phase1)
+    proven = [t for t, r in res1.items() if r["status"] == "ok" and r["verdicts"] and all(v["status"] == "discharged" for v in r["verdicts"])]
+    res2 = run_jobs(layer2, {"PYVC_PROVEN": json.dumps(proven)}) if layer2 else {}
     for t in targets:
-        jobs.append((t, tier, budget, (0, 1)))
-    # heavy (sharded) functions first
-    jobs.sort(key=lambda j: -int(getattr(reg.contract_for(j[0]), "shards", 1)))
-    with ProcessPoolExecutor(max_workers=min(workers, len(jobs))) as pool:
-        futs = {pool.submit(_verify_one, j): j for j in jobs}
-        for fut in as_completed(futs):
-            t = futs[fut][0]
-            try:
-                r = fut.result()
-            except Exception as e:  # worker crash
-                r = {"target": t, "status": "tool-error", "error": f"worker crash: {e!r}", "verdicts": [], "props": [], "path": "", "lineno": 0, "sha256": "", "solver_ms": 0, "wall_ms": 0, "paths": 0, "assumed_calls": [], "callees": []}
-            if t in results:  # merge shards
-                prev = results[t]
-                prev["verdicts"] += r["verdicts"]
-                prev["solver_ms"] += r["solver_ms"]
-                prev["wall_ms"] = max(prev["wall_ms"], r["wall_ms"])
-                if r["status"] == "tool-error":
-                    prev["status"], prev["error"] = r["status"], r["error"]
-            else:
-                results[t] = r
+        results[t] = res1[t] if t in res1 else res2[t]
+    if layer2:
+        report.extra["refinement_axioms"] = {"available_from": sorted(set(proven) & set(u for t in layer2 for u in getattr(reg.contract_for(t), "uses_axioms_of", []))), "withdrawn": sorted(set(u for t in layer2 for u in getattr(reg.contract_for(t), "uses_axioms_of", [])) - set(proven))}
     expected = {}
     if os.path.exists(obligations_file(prop)):
         with open(obligations_file(prop)) as f:
